@@ -24,7 +24,13 @@ func OpenTBlocking[K any, V any](dir string, opts Options, keyCodec Codec[K], va
 	if err != nil {
 		return nil, err
 	}
-	return WrapTBlocking(l)
+	bl, err := WrapTBlocking(l)
+	if err != nil {
+		// do not keep the log (and the directory lock) of an open that failed
+		_ = l.Close()
+		return nil, err
+	}
+	return bl, nil
 }
 
 // WrapTBlocking wraps a [TLog] with support for blocking consume
